@@ -21,8 +21,12 @@ graph     every labelled simple graph on 1..5 (6) vertices x every listed
 embed     is_embedded_in for every ordered pair of graphs on <= 4 vertices
           (thorough: also every <=4-vertex graph into every 5-vertex graph)
 qpu       every graph on <= 4 (5) vertices x every subset of its edges
-          declared remote x weight menu: weighted all-pairs distances, QPU
-          maps, QPU connectivity, per-QPU graphs
+          declared remote x weight menu (two default pairs; override of the
+          first edge, of the last edge, of every edge) x three ways of
+          writing the edge list (all (low, high), all (high, low),
+          alternating; remote edges and override keys repeat the edge as
+          written): weighted all-pairs distances, == with the same graph
+          written ascending, QPU maps, QPU connectivity, per-QPU graphs
 topology  all_to_all/linear/ring/star(n) for n = 1..12, grid(r, c) for
           r*c <= 12; edge sets vs. networkx generators, and the whole
           `graph` method battery on each (subsets up to size 3 (4))
@@ -97,22 +101,35 @@ def enumerate_cases(tier: str, seed: int) -> list[dict]:
         for a in small:
             for b in _graphs(5):
                 cases.append({'part': 'embed', 'a': list(a), 'b': list(b)})
-    # qpu
-    menus = [[1.0, 100.0, None], [2.5, 0.5, None], [1.0, 100.0, 'first']]
+    # qpu: graph x remote subset x weight menu x the way the edges are written
+    # (remote edges and override keys must repeat the edge as written)
+    def write(e: list, how: str) -> list:
+        if how == 'asc':
+            return [list(x) for x in e]
+        if how == 'desc':
+            return [[x[1], x[0]] for x in e]
+        return [[x[1], x[0]] if i % 2 == 0 else list(x) for i, x in enumerate(e)]
+
     for n in range(1, 5 if quick else 6):
         for _, e in _graphs(n):
-            for k in range(len(e) + 1):
-                for rem in it.combinations(e, k):
-                    for mi, (w0, wr, ov) in enumerate(menus):
-                        if n == 5 and mi > 0:
-                            continue
-                        if ov and not e:
-                            continue
-                        cases.append({
-                            'part': 'qpu', 'n': n, 'edges': e,
-                            'remote': list(rem),
-                            'w': [w0, wr, [list(e[0]), 7.0] if ov else None],
-                        })
+            menus = [(1.0, 100.0, []), (2.5, 0.5, [])]
+            if e:
+                menus.append((1.0, 100.0, [0]))
+                if len(e) > 1:
+                    menus += [(1.0, 100.0, [len(e) - 1]), (1.0, 100.0, list(range(len(e))))]
+            if n == 5:
+                menus = [menus[0], menus[-1]]
+            for how in (('asc',) if not e else ('asc', 'desc') if len(e) == 1 else ('asc', 'desc', 'alt')):
+                we = write(e, how)
+                for k in range(len(e) + 1):
+                    for rem in it.combinations(range(len(e)), k):
+                        for w0, wr, ovi in menus:
+                            vals = {0: 7.0, len(e) - 1: 0.25} if len(ovi) <= 1 else {i: 1.5 + i for i in ovi}
+                            cases.append({
+                                'part': 'qpu', 'n': n, 'edges': we,
+                                'remote': [we[i] for i in rem],
+                                'w': [w0, wr, [[we[i], vals[i]] for i in ovi] or None],
+                            })
     # topology
     kmax = 3 if quick else 4
     for n in range(1, 13):
